@@ -136,11 +136,11 @@ pub fn run() -> Report {
     let parts = par_fold(
         &cases,
         || Report::new("C15", "e1"),
-        |w, _i, case, acc| {
+        |w, i, case, acc| {
             let wk = Worker::new(&root, w);
             let c = coin(case.coin);
             let chain = build(c, case);
-            let mut world = World::simple(c, &chain.blocks, case.base);
+            let mut world = World::laid_out(c, &chain.blocks, case.base, if chain.blocks.len() > 1000 { 0 } else { i });
             let mut mblocks = chain.mblocks();
             if case.label == "block sizes summing beyond 2^32" {
                 // the stored length prefix is what "block size" means (C01); prefixes of 3*10^9 make the sum exceed 32 bits with 3 blocks
